@@ -75,6 +75,14 @@ theorem documented_formulations_usable :
 theorem pressure_all_backends :
     ∀ b ∈ [Gen.Backend.direct, .amg, .cg], Gen.accept .pressure b = .ok () := by decide
 
+/-- the flux-eliminated formulation constructs and runs with every installed back-end under both accepted
+spellings (that AMG / CG do not *solve* the indefinite reduced system on larger grids is the recorded
+finding `C08:linear_solve:formulation=flux_reduced:linear_solver=amg|cg:residual-vs-full-system`, a
+numerical matter outside this table) -/
+theorem flux_reduced_all_backends_run :
+    ∀ f ∈ [Gen.Formulation.flux_reduced, .flux_dash_reduced], ∀ b ∈ [Gen.Backend.direct, .amg, .cg],
+      Gen.accept f b = .ok () := by decide
+
 /-- no spelling accepted by the constructor falls through the branches of `linear_solve`: what is
 accepted either completes, or is refused by an explicit assert (full formulation with an iterative
 back-end), or needs the PETSc back-end that is not installed here. -/
